@@ -15,6 +15,7 @@ import asyncio
 
 from harness import Query, enc_list
 from comp_dev import enc_value
+import peek
 
 NAME = "nested"
 
@@ -58,7 +59,7 @@ def run_impl(case, outcome):
     # an assignment is observed as (stored value before, stored value after) around each call the harness or an actor makes
     def do_assign(idx, value, how):
         el = elements[idx]
-        before = el._value
+        before = peek.raw_value(el)
         try:
             if how == "assign":
                 el.value = value
@@ -81,7 +82,7 @@ def run_impl(case, outcome):
             if act and ev.new_value == act[0] and (hid, act[0]) not in fired:
                 fired.add((hid, act[0]))
                 target = idx if act[1] == 0 else 1 - idx
-                old = elements[target]._value
+                old = peek.raw_value(elements[target])
                 elements[target].value = act[2]
                 assigns[target].append((old, act[2]))
         return handler
@@ -91,12 +92,12 @@ def run_impl(case, outcome):
         for k in range(case["nhandlers"]):
             hid = 10 * (idx + 1) + k
             hids[idx].append(hid)
-            elements[idx]._definition.attach_event_handler(events.Change, make_handler(idx, hid))
+            els["e%d" % idx].attach_event_handler(events.Change, make_handler(idx, hid))
 
     async def main():
         for how, idx, value in case["ops"]:
             fired.clear()
-            old = elements[idx]._value
+            old = peek.raw_value(elements[idx])
             n_before = len(assigns[idx])
             do_assign(idx, value, how)
             # the outer assignment happened before any nested one of the same element: insert it at its place
@@ -245,7 +246,7 @@ def run_two_instances(case, outcome):
     for step, (k, how, value) in enumerate(case["ops"]):
         del calls[:]
         el = instances[k].g.v.e0
-        before = el._value
+        before = peek.raw_value(el)
         if how == "set_value":
             el.set_value(value)
         else:
